@@ -246,6 +246,10 @@ def gen_lock(ctx, K):
         n = rng.randint(3, 14)
         plans = _plans(rng, K, n, [0, 0, 1])
         frm = rng.choice([0, 0, rng.randint(0, n), n])       # n: taken just before disconnect()
+        if hold >= 3.0:
+            # long holds: at least half of the history is logged under the lock, so the backlog at disconnect() does not
+            # depend on how fast the writer thread happened to be before the lock was taken
+            frm = rng.choice([0, rng.randint(0, n // 2)])
         crash = None
         if not ctx.quick or idx != len(holds) - 1:
             crash = rng.choice([None, None, {"how": "cancel", "after": n}, {"how": "raise", "after": rng.randint(0, n)}])
